@@ -63,6 +63,10 @@ structure VState where
   seen : List String := []                      -- every label used so far
 deriving Repr, Inhabited
 
+/-- unordered pairs of distinct names of one `$d` statement, each pair sorted (`fr.d.add((min(a, b), max(a, b)))`) -/
+def disjPairs (vs : List String) : List (String × String) :=
+  vs.flatMap fun a => (vs.filter fun b => a < b).map fun b => (a, b)
+
 /-- `vars_of` -/
 def varsOf (vs : List String) (toks : List String) : List String := toks.filter fun t => vs.contains t
 
